@@ -6,7 +6,14 @@ import (
 	"github.com/zclconf/go-cty/cty"
 )
 
-// textseg.ScanGraphemeClusters by its contract (see the json harness for the reasoning).
+// VerifRuneSeg selects the deterministic model of grapheme segmentation (one cluster per
+// UTF-8 encoded rune, CR LF together, an ill-formed byte alone) instead of the
+// nondeterministic contract model; harnesses that compare two runs over the same text
+// (formatting twice) need the segmentation to be a function of the text.
+var VerifRuneSeg = false
+
+// textseg.ScanGraphemeClusters by its contract (see the json harness for the reasoning):
+// some non-empty prefix of the data; CR LF is one cluster; ASCII is one byte per cluster.
 //
 //verif:stub github.com/apparentlymart/go-textseg/v13/textseg.ScanGraphemeClusters
 func verifStubGrapheme(data []byte, atEOF bool) (int, []byte, error) {
@@ -27,6 +34,33 @@ func verifStubGrapheme(data []byte, atEOF bool) (int, []byte, error) {
 				return 2, data[:2], nil
 			}
 		}
+	}
+	if VerifRuneSeg {
+		c := data[0]
+		want := 1
+		if c >= 0xc2 {
+			want = 2
+		}
+		if c >= 0xe0 {
+			want = 3
+		}
+		if c >= 0xf0 {
+			want = 4
+		}
+		if c >= 0xf5 {
+			want = 1
+		}
+		if want > len(data) {
+			want = 1
+		}
+		for k := 1; k < want; k++ {
+			if data[k] < 0x80 {
+				want = 1
+			} else if data[k] >= 0xc0 {
+				want = 1
+			}
+		}
+		return want, data[:want], nil
 	}
 	if !ascii2 {
 		n = 1 + nondet_choice("grapheme-len", len(data))
